@@ -178,17 +178,14 @@ func isByteSlice(t types.Type) bool {
 	return ok && b.Kind() == types.Uint8
 }
 
-// appendBytes is append(buf, s...) that always yields a non-nil slice.
+// appendBytes is Go's append(buf, s...): it writes into buf's backing array
+// when there is room (so a shared scratch buffer is visibly shared) and
+// allocates otherwise.
 func (e *Exec) appendBytes(buf, s Slice) Slice {
-	nb, ns := e.ConcInt(buf.Len), e.ConcInt(s.Len)
-	st := e.newStore(byteT, i64(nb+ns))
-	for i := 0; i < nb; i++ {
-		*st.cell(i) = buf.St.peek(e.o(buf) + i)
+	if e.ConcInt(s.Len) == 0 {
+		return buf
 	}
-	for i := 0; i < ns; i++ {
-		*st.cell(nb + i) = s.St.peek(e.o(s) + i)
-	}
-	return Slice{St: st, Len: st.N, Cap: st.N}
+	return e.appendOp(buf, s, nil).(Slice)
 }
 
 // TypeForOID: text and varchar are known (TextCodec, executed from pgx's own
@@ -295,12 +292,3 @@ func init() {
 	}
 }
 
-func footBegin(e *Exec, c *frame, fn *ssa.Function, a []Value) Value  { return nil }
-func footReport(e *Exec, c *frame, fn *ssa.Function, a []Value) Value { return nil }
-
-func (f *footprint) access(e *Exec, p *Value, write, atomic bool) {}
-func (f *footprint) newObj(e *Exec, p *Value)                     {}
-func (f *footprint) derive(e *Exec, base, p *Value)               {}
-func (f *footprint) storeCell(e *Exec, st *Store, p *Value)       {}
-func (f *footprint) lock(p *Value, d int)                         {}
-func (f *footprint) read(p *Value)                                {}
